@@ -8,6 +8,7 @@ F5  remaining panic-capable sites are discharged by a checked idiom
 F6  no trapping arithmetic on numbers taken from tokens
 F7  a parser function that fails has reported an error; Ok results only without recorded errors
 F8  the literal parser only parses literal children when asked to
+F12 every node the literal parser can build in literal mode has an arm of its own in into_literal
 F10 AST-chosen indices in the type checker are compared with the length before they are used
 F11 cross-reference: forward const references, unknown / non-usize array-size consts and non-numeric const arithmetic are rejected by the
     checker (C17 T9 / T10 / T11); otherwise compile() panics on such text
@@ -643,6 +644,66 @@ def rule_f11(ctx):
     return res
 
 
+def rule_f12(ctx):
+    """Sibling agreement between the literal parser and the literal converter: every ExprEnum
+    node that Parser::parse_literal can build while only_literal_children is set must have an arm of
+    its own in TypedExpr::into_literal (whose default arm is unreachable!())."""
+    res = RuleResult("F12", "nodes built in literal mode are nodes into_literal converts")
+    conv = ctx.find_fn("into_literal", None, "literal.rs")
+    cb = ctx.body(conv["id"])
+    handled = None
+    for b in range(cb.n):
+        info = cb.switch_info(b)
+        if info and info[2].split("<")[0].split("::")[-1] == "ExprEnum" and info[0] and info[0][0] == ("arg", 1):
+            t = cb.term(b)
+            rets = set(cb.returns())
+            handled = set()
+            for v, x in t["targets"]:
+                if x != t["otherwise"] and rets & set(cb.reachable([x], blocked={b})):
+                    handled.add(info[1].get(v))
+            if rets & set(cb.reachable([t["otherwise"]], blocked={b})):
+                listed = {v for v, _ in t["targets"]}
+                handled |= {n for v, n in info[1].items() if v not in listed}
+            break
+    if not handled:
+        raise AnchorMissing("F12: into_literal does not switch on the ExprEnum of its argument")
+    f = ctx.find_fn("parse_literal", "&mut parse::Parser", "parse.rs")
+    body = ctx.body(f["id"])
+    flag = None
+    for l in range(1, body.arg_count + 1):
+        if body.locals[l]["ty"] == "bool":
+            flag = l
+    if flag is None:
+        raise AnchorMissing("F12: parse_literal has no bool flag")
+    flag_sw = {}
+    for b in range(body.n):
+        t = body.term(b)
+        if t and t["k"] == "switch" and t["discr"]["k"] in ("copy", "move"):
+            if any(r == ("arg", flag) for (r, p) in body.trace(t["discr"]["place"], through={})):
+                flag_sw[b] = [x for v, x in t["targets"] if v != 0] + ([t["otherwise"]] if all(v == 0 for v, _ in t["targets"]) else [])
+
+    def succ(b):
+        if b in flag_sw:
+            return flag_sw[b]
+        return body.succs(b)
+    live = set(body.reachable([0], succ=succ))
+    n = 0
+    for b in sorted(live):
+        for st in body.blocks[b]["stmts"]:
+            if st["k"] == "assign" and st["rv"]["k"] == "aggregate" and (st["rv"].get("adt") or "").split("<")[0].split("::")[-1] == "ExprEnum":
+                n += 1
+                v = st["rv"].get("variant")
+                if v in handled:
+                    res.ok({"node": v, "line": st["sp"][1], "verdict": "converted by an arm of into_literal"})
+                else:
+                    res.bad(Finding("F12", f["id"], "literal mode builds ExprEnum::%s" % v,
+                                    "Parser::parse_literal can build ExprEnum::%s while only_literal_children is set, and TypedExpr::into_literal has no arm for it: Literal::parse reaches unreachable!() when the node type-checks" % v, st["sp"]))
+    if n < 9 and not res.findings:
+        raise AnchorMissing("F12: expected the literal nodes of parse_literal, found %d (11 on the pinned tree)" % n)
+    res.note("into_literal converts: %s" % ", ".join(sorted(handled)))
+    return res
+
+
 def run(ctx):
     out = []
 
@@ -652,7 +713,7 @@ def run(ctx):
             return r
         g.__name__ = fn.__name__
         return g
-    results = ctx.run_rules([rule_f1_f2, rule_f3, rule_f4_f5, rule_f6, rule_f7, rule_f8, rule_f10, rule_f11])
+    results = ctx.run_rules([rule_f1_f2, rule_f3, rule_f4_f5, rule_f6, rule_f7, rule_f8, rule_f10, rule_f11, rule_f12])
     for r in results:
         if isinstance(r, list):
             out.extend(r)
